@@ -8,6 +8,8 @@ import (
 	"errors"
 	"fmt"
 	"reflect"
+	"strconv"
+	"time"
 
 	"github.com/notaryproject/notation-core-go/signature"
 
@@ -25,7 +27,10 @@ type Input struct {
 	Skip  bool       `json:"skip"`
 	// concretisation only (ignored by the model, theorem concretisation_irrelevant):
 	RefVariant string `json:"refVariant"` // "", "sha512", "sha384", "tag@digest"
-	Flavors    []int  `json:"flavors"`    // per listed signature: error value of a failing fetch / verification
+	Flavors    []int  `json:"flavors"`    // per listed signature: error value of a failing fetch / verification,
+	// media type of the fetched envelope and age of the signature manifest (see flavored, mediaTypeOf, createdOf)
+	SameAs []int `json:"sameAs"` // per listed signature: -1, or the EARLIER listing position whose manifest digest this
+	// entry repeats (a listing may name one manifest twice; both entries count as attempts)
 }
 
 type Obs struct {
@@ -78,6 +83,8 @@ type repo struct {
 	index    map[digest.Digest]int
 	kind     map[digest.Digest]string
 	flavors  []int
+	sameAs   []int
+	kinds    []string // by listing position
 }
 
 func (r *repo) Resolve(ctx context.Context, reference string) (ocispec.Descriptor, error) {
@@ -91,9 +98,16 @@ func (r *repo) ListSignatures(ctx context.Context, desc ocispec.Descriptor, fn f
 	for _, p := range r.pages {
 		var ds []ocispec.Descriptor
 		for _, k := range p {
-			d := ocispec.Descriptor{MediaType: ocispec.MediaTypeImageManifest, Digest: digest.FromString(fmt.Sprint("sig", i)), Size: int64(i)}
-			r.index[d.Digest] = i
-			r.kind[d.Digest] = k
+			// the manifest digest (repeated when the listing names one manifest twice), the listing position
+			// as the size (so that the harness knows which ENTRY is meant), and the creation time annotation
+			// notation writes on every signature manifest
+			src := i
+			if i < len(r.sameAs) && r.sameAs[i] >= 0 && r.sameAs[i] < i {
+				src = r.sameAs[i]
+			}
+			d := ocispec.Descriptor{MediaType: ocispec.MediaTypeImageManifest, Digest: digest.FromString(fmt.Sprint("sig", src)), Size: int64(i),
+				Annotations: map[string]string{ocispec.AnnotationCreated: createdOf(r.flavor(i), i)}}
+			r.kinds = append(r.kinds, k)
 			ds = append(ds, d)
 			i++
 		}
@@ -104,12 +118,39 @@ func (r *repo) ListSignatures(ctx context.Context, desc ocispec.Descriptor, fn f
 	return nil
 }
 
-func (r *repo) FetchSignatureBlob(ctx context.Context, desc ocispec.Descriptor) ([]byte, ocispec.Descriptor, error) {
-	r.fetched = append(r.fetched, r.index[desc.Digest])
-	if r.kind[desc.Digest] == "unfetchable" {
-		return nil, ocispec.Descriptor{}, flavored(r.flavor(r.index[desc.Digest]), "unfetchable")
+func (r *repo) kindAt(i int) string {
+	if i >= 0 && i < len(r.kinds) {
+		return r.kinds[i]
 	}
-	return []byte(desc.Digest), ocispec.Descriptor{MediaType: "application/jose+json"}, nil
+	return "bad"
+}
+
+// media types a registry may report for a signature envelope: a future or parameterised one is just
+// a signature that fails to verify, never a reason to stop
+func mediaTypeOf(k int) string {
+	switch k % 4 {
+	case 1:
+		return "application/cose"
+	case 2:
+		return "application/jose+json; charset=utf-8"
+	case 3:
+		return "application/vnd.example.future-envelope+cbor"
+	}
+	return "application/jose+json"
+}
+
+// creation times: listing order is NOT age order (oldest first when the flavours are all zero)
+func createdOf(k, i int) string {
+	return time.Date(2024, 1, 1, 0, 0, 0, 0, time.UTC).Add(time.Duration(i*7+(k*13)%5) * time.Hour).Format(time.RFC3339)
+}
+
+func (r *repo) FetchSignatureBlob(ctx context.Context, desc ocispec.Descriptor) ([]byte, ocispec.Descriptor, error) {
+	i := int(desc.Size)
+	r.fetched = append(r.fetched, i)
+	if r.kindAt(i) == "unfetchable" {
+		return nil, ocispec.Descriptor{}, flavored(r.flavor(i), "unfetchable")
+	}
+	return []byte(fmt.Sprint(i)), ocispec.Descriptor{MediaType: mediaTypeOf(r.flavor(i))}, nil
 }
 
 func (r *repo) PushSignature(ctx context.Context, mediaType string, blob []byte, subject ocispec.Descriptor, annotations map[string]string) (a, b ocispec.Descriptor, err error) {
@@ -122,17 +163,18 @@ type verifier struct {
 }
 
 func (v *verifier) Verify(ctx context.Context, desc ocispec.Descriptor, sig []byte, opts notation.VerifierVerifyOptions) (*notation.VerificationOutcome, error) {
-	v.verified = append(v.verified, v.r.index[digest.Digest(sig)])
+	idx, _ := strconv.Atoi(string(sig))
+	v.verified = append(v.verified, idx)
 	// like the real verifier, the outcome carries the envelope content: a signed payload naming the
 	// artifact by media type, digest and size, with annotations of its own (user metadata)
 	payload, _ := json.Marshal(map[string]any{"targetArtifact": ocispec.Descriptor{MediaType: artifact.MediaType,
 		Digest: artifact.Digest, Size: artifact.Size, Annotations: map[string]string{"buildId": "101"}}})
 	out := &notation.VerificationOutcome{RawSignature: sig, EnvelopeContent: &signature.EnvelopeContent{
 		Payload: signature.Payload{ContentType: "application/vnd.cncf.notary.payload.v1+json", Content: payload}}}
-	if desc.Digest == artifact.Digest && v.r.kind[digest.Digest(sig)] == "good" {
+	if desc.Digest == artifact.Digest && v.r.kindAt(idx) == "good" {
 		return out, nil
 	}
-	out.Error = flavored(v.r.flavor(v.r.index[digest.Digest(sig)]), "bad signature")
+	out.Error = flavored(v.r.flavor(idx), "bad signature")
 	return out, out.Error
 }
 
@@ -176,7 +218,7 @@ func refString(kind, variant string) string {
 }
 
 func runCase(in Input, withSkipper bool) Obs {
-	r := &repo{pages: in.Pages, index: map[digest.Digest]int{}, kind: map[digest.Digest]string{}, flavors: in.Flavors}
+	r := &repo{pages: in.Pages, index: map[digest.Digest]int{}, kind: map[digest.Digest]string{}, flavors: in.Flavors, sameAs: in.SameAs}
 	var v notation.Verifier
 	var base *verifier
 	if withSkipper {
@@ -200,8 +242,8 @@ func runCase(in Input, withSkipper bool) Obs {
 			o.Skipped = true
 		} else if len(outcomes) >= 1 && outcomes[0].RawSignature != nil {
 			// a success: report which signature's outcome came back
-			idx, known := r.index[digest.Digest(outcomes[0].RawSignature)]
-			if !known {
+			idx, aerr := strconv.Atoi(string(outcomes[0].RawSignature))
+			if aerr != nil || idx < 0 || idx >= len(r.kinds) {
 				idx = -1
 			}
 			o.Success = &idx
@@ -284,7 +326,22 @@ func Run(c *common.Ctx) error {
 											flavors[k] = (counter/2 + k) % 6
 										}
 									}
-									in := Input{Max: max, Pages: pages, Ref: ref, Skip: skip, RefVariant: variant, Flavors: flavors}
+									// every third case: later entries repeat the manifest of an earlier entry of the same kind
+									sameAs := make([]int, n)
+									for k := range sameAs {
+										sameAs[k] = -1
+									}
+									if counter%3 == 0 {
+										for k := 1; k < n; k++ {
+											for j := 0; j < k; j++ {
+												if l[j] == l[k] && (counter/3+k+j)%2 == 0 {
+													sameAs[k] = j
+													break
+												}
+											}
+										}
+									}
+									in := Input{Max: max, Pages: pages, Ref: ref, Skip: skip, RefVariant: variant, Flavors: flavors, SameAs: sameAs}
 									if in.Pages == nil {
 										in.Pages = [][]string{}
 									}
